@@ -74,7 +74,12 @@ let parse_json (s : string) : node =
       if !isf then
         let bits = Int64.bits_of_float (try float_of_string t with _ -> raise Parse_error) in
         Node (kl, key, TF64, z_of_string (Printf.sprintf "%Lu" bits), [], [])
-      else Node (kl, key, TI64, z_of_string t, [], [])
+      else begin
+        (* an integer token is -?[0-9]+ : a lone `-`, `1-2`, `+1` are no numbers *)
+        let body = if String.length t > 0 && t.[0] = '-' then String.sub t 1 (String.length t - 1) else t in
+        if body = "" || (let bad = ref false in String.iter (fun c -> if c < '0' || c > '9' then bad := true) body; !bad) then raise Parse_error;
+        Node (kl, key, TI64, z_of_string t, [], [])
+      end
     | _ -> raise Parse_error in
   let v = pvalue Z0 [] in
   ws (); if !pos <> n then raise Parse_error; v
